@@ -22,6 +22,9 @@ Round 4: a requested run-space dry run reaches its gate - the parser stores a va
    (C17-D1-dry-run-request-reaches-gate); the expansion gate rejects mismatched lengths instead of
    truncating: every lock-step walk over several sequences in run_space.py is dominated by a raising test
    that compares their lengths with each other (C17-D1-position-merge-length-guarded).
+Defect 4eea17b: an unreadable / undecodable run-space source file reaches the `except` clauses around the
+   expand_run_space call as a class they map to the configuration-error exit (C17-D2/C08-D4-read-errors-converted:
+   C08's exception-propagation rule re-applied; the classes are read from those except clauses, so the two agree).
 """
 from __future__ import annotations
 
@@ -338,6 +341,15 @@ def run(repo: Repo, R: Report) -> None:
     cap_value_rule(repo, R, fn)
     dry_run_request_rule(repo, R, fn)
     position_merge_rule(repo, R)
+    # the expansion gate rejects an unreadable source with the configuration-error exit: every failure of reading a
+    # source file reaches the `except` clauses around expand_run_space as a class they map (C08's rule, CLI view)
+    from . import c08
+
+    R.rule_prefix = "C17-D2/"
+    try:
+        c08.read_errors_rule(repo, R, library_view=False)
+    finally:
+        R.rule_prefix = ""
 
 
 def _anc(n):
